@@ -12,7 +12,7 @@ import (
 
 // expression forms of a setting
 type refExpr struct {
-	form int    // 0 literal, 1 ${X}, 2 p${X}s, 3 ${X}${Y}, 4 ${X:dflt}, 5 ${X:${Y}}, 6 ${X}-${Y}, 7 ${X:+alt}${Y}
+	form int // 0 literal, 1 ${X}, 2 p${X}s, 3 ${X}${Y}, 4 ${X:dflt}, 5 ${X:${Y}}, 6 ${X}-${Y}, 7 ${X:+alt}${Y}
 	x, y string
 	lit  string
 }
